@@ -28,13 +28,17 @@ type refTerm struct {
 	syncDepth int
 	modes     map[int]int // DEC private modes: 1 set, 0 reset (absent: untouched)
 	keypadApp int         // -1 untouched
-	kittyDepth int
-	pointer   string
-	appID     string
-	altScreen bool
-	tags      map[string]bool // capability-gated vocabulary seen
-	bad       string          // first sequence outside the vocabulary
-	nuls      int
+	// kitty keyboard protocol: the main and the alternate screen keep independent stacks of
+	// enhancement flags; index 0 = main, 1 = alternate. kittyUnderflow records a pop from
+	// an empty stack (harmless for the terminal, but an unbalanced pair for the program).
+	kittyDepth     [2]int
+	kittyUnderflow bool
+	pointer        string
+	appID          string
+	altScreen      bool
+	tags           map[string]bool // capability-gated vocabulary seen
+	bad            string          // first sequence outside the vocabulary
+	nuls           int
 }
 
 func newRefTerm(w, h int) *refTerm {
@@ -298,15 +302,26 @@ func (t *refTerm) csi(private byte, params string, inter string, final byte) {
 		t.shape = p0
 	case private == '>' && inter == "" && final == 'u':
 		t.tags["kittyKeyboard"] = true
-		t.kittyDepth++
+		t.kittyDepth[t.screenIdx()]++
 	case private == '<' && inter == "" && final == 'u':
 		t.tags["kittyKeyboard"] = true
-		t.kittyDepth--
+		if t.kittyDepth[t.screenIdx()] == 0 {
+			t.kittyUnderflow = true
+		} else {
+			t.kittyDepth[t.screenIdx()]--
+		}
 	case final == 'c' || final == 'n' || final == 't' || final == 'p' || final == 'q' || final == 'S' || final == 'u':
 		// queries: no display effect
 	default:
 		t.fail("CSI outside the vocabulary: " + string([]byte{final}))
 	}
+}
+
+func (t *refTerm) screenIdx() int {
+	if t.altScreen {
+		return 1
+	}
+	return 0
 }
 
 func (t *refTerm) osc(payload string) {
@@ -475,17 +490,19 @@ type verifConsole struct {
 	log []byte
 }
 
-func (c *verifConsole) Read(p []byte) (int, error)  { return 0, nil }
-func (c *verifConsole) Write(p []byte) (int, error) { c.log = append(c.log, p...); return len(p), nil }
-func (c *verifConsole) Close() error                { return nil }
-func (c *verifConsole) Fd() uintptr                 { return 0 }
-func (c *verifConsole) Name() string                { return "verif" }
-func (c *verifConsole) Resize(console.WinSize) error        { return nil }
-func (c *verifConsole) ResizeFrom(console.Console) error    { return nil }
-func (c *verifConsole) SetRaw() error                       { return nil }
-func (c *verifConsole) DisableEcho() error                  { return nil }
-func (c *verifConsole) Reset() error                        { return nil }
-func (c *verifConsole) Size() (console.WinSize, error)      { return console.WinSize{Height: 3, Width: 4}, nil }
+func (c *verifConsole) Read(p []byte) (int, error)       { return 0, nil }
+func (c *verifConsole) Write(p []byte) (int, error)      { c.log = append(c.log, p...); return len(p), nil }
+func (c *verifConsole) Close() error                     { return nil }
+func (c *verifConsole) Fd() uintptr                      { return 0 }
+func (c *verifConsole) Name() string                     { return "verif" }
+func (c *verifConsole) Resize(console.WinSize) error     { return nil }
+func (c *verifConsole) ResizeFrom(console.Console) error { return nil }
+func (c *verifConsole) SetRaw() error                    { return nil }
+func (c *verifConsole) DisableEcho() error               { return nil }
+func (c *verifConsole) Reset() error                     { return nil }
+func (c *verifConsole) Size() (console.WinSize, error) {
+	return console.WinSize{Height: 3, Width: 4}, nil
+}
 
 func (c *verifConsole) take() []byte {
 	b := c.log
